@@ -430,7 +430,9 @@ func c07CopyStorm(kind string, clients, perClient int) {
 		s.end()
 		return
 	}
-	want := metaField(do(s.h, Req{Method: "HEAD", Path: "/" + b + "/storm/src"}).Header)
+	srcHead := do(s.h, Req{Method: "HEAD", Path: "/" + b + "/storm/src"})
+	want := metaField(srcHead.Header)
+	srcETag := strings.Trim(srcHead.Header.Get("ETag"), "\"")
 	var mu sync.Mutex
 	var bad []string
 	note := func(f string, a ...interface{}) {
@@ -448,7 +450,19 @@ func c07CopyStorm(kind string, clients, perClient int) {
 			defer wg.Done()
 			<-start
 			for i := 0; i < perClient; i++ {
-				switch (c + i) % 3 {
+				switch (c + i) % 4 {
+				case 3:
+					// a copy onto a key that other clients are overwriting: whatever the order, the copy's
+					// answer names the entity of its source (which nothing writes)
+					dst := fmt.Sprintf("storm/contended-%d", i%3)
+					if c%2 == 0 {
+						r := do(s.h, Req{Method: "PUT", Path: "/" + b + "/" + dst, Body: []byte{}, Header: [][2]string{{"X-Amz-Copy-Source", "/" + b + "/storm/src"}}})
+						if et := xmlAll(string(r.Body), "ETag"); r.Status != 200 || len(et) != 1 || strings.Trim(et[0], "\"") != srcETag {
+							note("copy onto the contended key %s answers %d with ETag %v; the source's is %s", dst, r.Status, et, srcETag)
+						}
+					} else {
+						do(s.h, Req{Method: "PUT", Path: "/" + b + "/" + dst, Body: []byte(fmt.Sprintf("other-content-%d-%d", c, i))})
+					}
 				case 0:
 					dst := fmt.Sprintf("storm/dst-%d-%d", c, i)
 					r := do(s.h, Req{Method: "PUT", Path: "/" + b + "/" + dst, Body: []byte{}, Header: [][2]string{{"X-Amz-Copy-Source", "/" + b + "/storm/src"}}})
